@@ -16,7 +16,9 @@ fn arg(args: &[String], name: &str) -> Option<String> {
 
 fn main() {
     // contract panics are caught per case; keep stderr quiet
-    std::panic::set_hook(Box::new(|_| {}));
+    if std::env::var("HARNESS_PANIC_TRACE").is_err() {
+        std::panic::set_hook(Box::new(|_| {}));
+    }
     let args: Vec<String> = std::env::args().collect();
     let mode = args.get(1).cloned().unwrap_or_default();
     let seed: u64 = arg(&args, "--seed").and_then(|s| s.parse().ok()).unwrap_or(1);
